@@ -18,18 +18,19 @@ theorem modCh_get_ne (s : St) {i j : Nat} (f : Channel → Channel) (h : i ≠ j
 theorem switchChannel_get_ne (s : St) {i chan : Nat} (new : Nat) (h : i ≠ chan) :
     (s.switchChannel chan new).chans[i]? = s.chans[i]? := by
   unfold St.switchChannel
+  rw [setCurr_chans]
   exact modCh_get_ne s _ h
 
 /-- the channel a control pair addresses, and the channels a mode command can switch to -/
 def cmdChan (s : St) (c1 : Nat) (f2 : Bool) : Nat :=
-  (s.currChan &&& 4) + (if f2 then 2 else 0) + ((c1 >>> 3) &&& 1)
+  (s.curr f2 &&& 4) + (if f2 then 2 else 0) + ((c1 >>> 3) &&& 1)
 
 theorem captionCommand_untouched (s : St) (c1 c2 : Nat) (f2 : Bool) (i : Nat)
     (h1 : i ≠ cmdChan s c1 f2) (h2 : i ≠ cmdChan s c1 f2 &&& 3) (h3 : i ≠ cmdChan s c1 f2 ||| 4) :
     (captionCommand s c1 c2 f2).chans[i]? = s.chans[i]? := by
   unfold captionCommand
   unfold cmdChan at h1 h2 h3
-  generalize (s.currChan &&& 4) + (if f2 then 2 else 0) + ((c1 >>> 3) &&& 1) = chan at h1 h2 h3 ⊢
+  generalize (s.curr f2 &&& 4) + (if f2 then 2 else 0) + ((c1 >>> 3) &&& 1) = chan at h1 h2 h3 ⊢
   simp only []
   repeat' split
   all_goals first
@@ -59,10 +60,10 @@ theorem cmdChan_group (s : St) (c1 : Nat) (f2 : Bool) :
     let g := (if f2 then 2 else 0) + ((c1 >>> 3) &&& 1)
     (cmdChan s c1 f2 = g ∨ cmdChan s c1 f2 = g + 4) ∧ cmdChan s c1 f2 &&& 3 = g ∧ cmdChan s c1 f2 ||| 4 = g + 4 := by
   have hk : (c1 >>> 3) &&& 1 < 2 := by have : (c1 >>> 3) &&& 1 ≤ 1 := Nat.and_le_right; omega
-  have hm : s.currChan % 8 < 8 := Nat.mod_lt _ (by decide)
+  have hm : s.curr f2 % 8 < 8 := Nat.mod_lt _ (by decide)
   have := sel_facts _ hm _ hk f2
   unfold cmdChan
-  rw [and_mod8 s.currChan 4 rfl]
+  rw [and_mod8 (s.curr f2) 4 rfl]
   exact ⟨this.1, this.2.1, this.2.2.1⟩
 
 theorem textChan_group (cur : Nat) (f2 : Bool) :
@@ -80,20 +81,20 @@ def isControl (b0 : Nat) : Bool :=
 /-- The data channel (field, channel bit) a byte pair belongs to: `2 * field + bit`, where the bit is
     bit 3 of a control code's first byte, and for text the bit of the latest mode command. -/
 def pairGroup (s : St) (f2 : Bool) (b0 : Nat) : Nat :=
-  (if f2 then 2 else 0) + (if isControl b0 then ((b0 &&& 0x7F) >>> 3) &&& 1 else s.currChan &&& 1)
+  (if f2 then 2 else 0) + (if isControl b0 then ((b0 &&& 0x7F) >>> 3) &&& 1 else s.curr f2 &&& 1)
 
 theorem decodeMain_untouched (s : St) (f2 : Bool) (b0 b1 : Nat) (i : Nat)
     (h1 : i ≠ pairGroup s f2 b0) (h2 : i ≠ pairGroup s f2 b0 + 4) :
     (decodeMain s f2 b0 b1).chans[i]? = s.chans[i]? := by
   unfold decodeMain
   unfold pairGroup isControl at h1 h2
-  have ht := textChan_group s.currChan f2
+  have ht := textChan_group (s.curr f2) f2
   by_cases hbad : (Hamm.unpar8 b0).isNone = true
   · -- bad parity: both bytes become 0x7F, text branch
     have hs : (Hamm.unpar8 b0).isSome = false := by
       cases h : Hamm.unpar8 b0 <;> simp_all
     simp only [hbad, if_true, hs, Bool.false_and, Bool.false_eq_true, if_false] at h1 h2 ⊢
-    have hi : i ≠ (s.currChan &&& 5) + (if f2 then 2 else 0) := by
+    have hi : i ≠ (s.curr f2 &&& 5) + (if f2 then 2 else 0) := by
       rcases ht with e | e <;> rw [e] <;> assumption
     simp only [show ¬(1 ≤ 127 ∧ 127 ≤ 0x0F) by decide, show ¬(0x10 ≤ 127 ∧ 127 ≤ 0x1F) by decide,
       show ¬((127 : Nat) = 0x80 ∧ (127 : Nat) = 0x80) by decide, if_false]
@@ -127,7 +128,7 @@ theorem decodeMain_untouched (s : St) (f2 : Bool) (b0 b1 : Nat) (i : Nat)
           · right; intro h; exact hc ⟨h10, h⟩
           · left; exact h10
         simp only [hnc, Bool.false_eq_true, if_false] at h1 h2
-        have hi : i ≠ (s.currChan &&& 5) + (if f2 then 2 else 0) := by
+        have hi : i ≠ (s.curr f2 &&& 5) + (if f2 then 2 else 0) := by
           rcases ht with e | e <;> rw [e] <;> assumption
         split
         · exact modCh_get_ne _ _ hi
@@ -143,7 +144,8 @@ theorem decodePair_untouched (s : St) (f2 : Bool) (b0 b1 : Nat) (i : Nat)
   split
   · rw [xdsConsumed_chans]
   · rename_i s' hs
-    obtain ⟨_, hc, _, _, hcur⟩ := xdsGate_some hs
+    obtain ⟨_, hc, _, _, _⟩ := xdsGate_some hs
+    have hcur := xdsGate_some_curr hs f2
     have hg : pairGroup s' f2 b0 = pairGroup s f2 b0 := by unfold pairGroup; rw [hcur]
     rw [← hc]
     exact decodeMain_untouched s' f2 b0 b1 i (hg ▸ h1) (hg ▸ h2)
@@ -182,7 +184,8 @@ theorem captionCommand_last (s : St) (c1 c2 : Nat) (f2 : Bool) :
     intro t i f; unfold St.modCh St.fail; repeat' split
     all_goals exact ⟨rfl, rfl⟩
   have hsw : ∀ (t : St) i n, (t.switchChannel i n).last0 = t.last0 ∧ (t.switchChannel i n).last1 = t.last1 := by
-    intro t i n; unfold St.switchChannel; exact hm t i _
+    intro t i n; unfold St.switchChannel
+    rw [(setCurr_last _ _).1, (setCurr_last _ _).2.1]; exact hm t i _
   unfold captionCommand
   simp only []
   repeat' split
